@@ -18,7 +18,25 @@ with tempfile.TemporaryDirectory(dir='/var/tmp') as td:
     for tc in ET.parse(jx).getroot().iter('testcase'):
         if not any(ch.tag in ('failure', 'error', 'skipped') for ch in tc):
             passed.add(f"{tc.get('classname')}::{tc.get('name')}")
-missing = [t for t in base['stable_pass'] if t not in passed]
+    missing = [t for t in base["stable_pass"] if t not in passed]
+    # hypothesis-based property tests and a few timing-sensitive tests fail now and then under load: re-run the
+    # missing ones on their own (twice at most) before calling them missing
+    for attempt in range(2):
+        if not missing or len(missing) > 40:
+            break
+        still = []
+        for t in missing:
+            cls, _, name = t.partition('::')
+            path = cls.split('.')
+            # classname is module path [+ class]; find the file
+            mod = path[:-1] if path[-1][:1].isupper() else path
+            fn = os.path.join(repo, *mod) + '.py'
+            node = fn + ('::' + path[-1] if path[-1][:1].isupper() else '') + '::' + name
+            r = subprocess.run(['/venv/bin/python', '-m', 'pytest', '-q', '-p', 'no:cacheprovider', '--timeout=900', node],
+                               cwd=repo, env=env, stdout=subprocess.DEVNULL, stderr=subprocess.DEVNULL)
+            if r.returncode != 0:
+                still.append(t)
+        missing = still
 print(f'stable_pass={len(base["stable_pass"])} passed_now={len(passed)} missing={len(missing)}')
 for t in missing[:40]:
     print('  MISSING', t)
